@@ -52,6 +52,7 @@ def run(ctx, rep, tier):
     rep.rule("R6", "bounds popped during a query are saved and all pushed back", 2)
     rep.rule("TS", "final position selector is the exact complement of the descent condition on the slope", 1)
     rep.rule("BP", "bounds are pushed at positions >= begin_", 2)
+    rep.rule("BQ", "no bound is left right of the position committed for the inserted cell", 2)
     rep.rule("DS", "derived state of RowLegalizer is reset by every writer of its inputs", 1)
     rep.rule("CR", "clear() gives every changing scalar member the value the constructor gives it", 1)
     rep.rule("QP", "getCost queries (update=false), push commits (update=true), clear resets everything", 3)
@@ -171,6 +172,13 @@ def run(ctx, rep, tier):
         rep.holds("QP", c.decl, c, "clear() resets %s" % ", ".join(sorted(allst)))
     else:
         rep.violation("QP", c.decl, c, "clear() leaves %s untouched" % sorted(allst - w), "", key="RowLegalizer::clear|incomplete reset")
+    from .common import shrinking_bound_loops
+    for h in prog.funcs.values():
+        if h.cls == CQ + "RowLegalizer":
+            for lp, cont in shrinking_bound_loops(h):
+                rep.violation("QP", lp, h, "%s empties %s with a loop whose bound shrinks as its index grows" % (h.short, pretty(cont)),
+                              "`for (i = 0; i < c.size(); ++i) c.pop()` removes only about half of the elements: bounds of the previous use survive "
+                              "and a cleared legalizer does not behave like a fresh one", key="%s|half-emptied container" % h.short)
     check_clear_restores(ctx, rep, c)
 
     check_tie_selector(ctx, rep, f)
@@ -384,5 +392,46 @@ def check_bound_positions(ctx, rep, f):
                           key="RowLegalizer::getDisplacement|bound below begin_")
         else:
             rep.unknown("BP", x, f, what, "neither provable nor refutable from the dominating guards")
+    # BQ: upper side. The position committed for the inserted cell (what the update appends to constrainingPos_) already respects the
+    # right limit end_ - usedSpace() - width; a bound left in the queue to the right of it lies where no later cell can go, and the next
+    # insertion integrates its weight over the stretch between the two: the reported costs drift above the real displacement.
+    cp = ("field", CQ + "RowLegalizer::constrainingPos_", ("this",))
+    commits = [canon(callee_info(y)["args"][0]) for y in walk(f.body) if y.get("kind") == "CXXMemberCallExpr" and callee_info(y)["name"] in ("push_back", "emplace_back")
+               and callee_info(y)["obj"] is not None and canon(callee_info(y)["obj"]) == cp and callee_info(y)["args"]]
+    if len(commits) != 1:
+        rep.unknown("BQ", f.decl, f, "committed position", "expected exactly one append to constrainingPos_ in getDisplacement, found %d" % len(commits))
+        return
+    final = commits[0]
+    for x in walk(f.body):
+        if x.get("kind") != "CXXMemberCallExpr":
+            continue
+        ci = callee_info(x)
+        if not ci or ci["name"] not in ("push", "emplace") or ci["obj"] is None or canon(ci["obj"]) != ("field", bq, ("this",)):
+            continue
+        a = canon(ci["args"][0]) if ci["args"] else None
+        if a is None or a[0] != "construct" or len(a) < 4:
+            continue
+        posn = a[-1] if len(a) == 4 else a[3]
+        site = g.node_for(x)
+        F = Facts()
+        for ast, val, en in g.dom_edges(site, asserts=True):
+            if isinstance(val, bool):
+                F.add_cond(expand_locals(ctx, f, canon(ast)), val)
+        P = Prover(F, orthant=False)
+        fe, pe = expand_locals(ctx, f, final), expand_locals(ctx, f, posn)
+        what = "bound pushed at %s, cell committed at %s" % (pretty(posn)[:50], pretty(final)[:30])
+        if P.prove_ge(final, posn) or P.prove_ge(fe, pe):
+            rep.holds("BQ", x, f, what, "the bound is not right of the committed position")
+            continue
+        cm = P.countermodel(fe, pe)
+        if cm is not None:
+            env, va, vb = cm
+            rep.violation("BQ", x, f, what, "the bound can lie right of the position committed for the cell (e.g. %s: committed %.4g, bound %.4g): that "
+                          "stretch is beyond the right limit of every later cell, yet the next insertion integrates the bound's weight over it - the "
+                          "reported costs no longer sum to the displacement of the returned placement" % (
+                              ", ".join("%s=%s" % kv for kv in sorted(env.items())[:6]), va, vb),
+                          key="RowLegalizer::getDisplacement|bound right of the committed position")
+        else:
+            rep.unknown("BQ", x, f, what, "neither provable nor refutable from the dominating guards")
     if n == 0:
         rep.unknown("BP", f.decl, f, "bound pushes", "no push of a newly constructed Bound found (shape changed)")
